@@ -74,3 +74,17 @@ package scparser
 //@ assumed
 //@ pure
 //@ ensures result == stdScript(script)
+
+// C07 (a transaction's script is well-formed) / C12: when the static check compares its two bit
+// fields, the target of every instruction it decoded that carries one code offset (jmpLen > 0: all
+// jumps and calls in both widths, ENDTRY(L), PUSHA) is in `jumps` unless it is the script end; the
+// subset test against `instrs` (decoded instruction boundaries) then rejects any other target.
+// TRY/TRYL targets are left to the bounded check.
+//@ prop C07,C12
+//@ func IsScriptCorrect
+//@ may-panic
+//@ opt frame off
+//@ call IsSubset requires[recorded] forall(p, 0, l, bitfield.bit(instrs, p) && jmpLen(opcode.Opcode(script[p])) > 0 ==> 0 <= p + rel(script, p) && p + rel(script, p) <= l && (p + rel(script, p) == l || bitfield.bit(jumps, p + rel(script, p))))
+//@ loop 0 invariant[ctx] ctx != nil && same(ctx.prog, script) && 0 <= ctx.nextip && ctx.nextip <= l && l == len(script) && len(instrs) == 1 + (l-1)/64 && len(jumps) == 1 + (l-1)/64
+//@ loop 0 invariant[ahead] forall(p, ctx.nextip, 64 * len(instrs), !bitfield.bit(instrs, p))
+//@ loop 0 invariant[recorded] forall(p, 0, ctx.nextip, bitfield.bit(instrs, p) && jmpLen(opcode.Opcode(script[p])) > 0 ==> 0 <= p + rel(script, p) && p + rel(script, p) <= l && (p + rel(script, p) == l || bitfield.bit(jumps, p + rel(script, p))))
